@@ -697,3 +697,17 @@ Proof.
   split; [exact Hy|]. split; [exact E3|].
   intros ND. exact (nodup_map_inj it_hash items y x ND Hy Hx E3).
 Qed.
+
+(* the statement of C13_bst_inorder, assembled *)
+Theorem bst_inorder_full items :
+  exists out,
+    make_goodbye_bst items = Some out /\
+    length out = length items /\
+    Permutation out items /\
+    arr_inorder (length out) out 0 = sort_items items /\
+    Permutation items (sort_items items) /\
+    StronglySorted item_le (sort_items items).
+Proof.
+  destruct (bst_inorder_proof items) as (out & H1 & H2 & H3 & H4).
+  exists out. repeat split; try assumption; [apply sort_items_perm|apply sort_items_sorted].
+Qed.
